@@ -1,7 +1,7 @@
 (* Extraction of the executable model for the correspondence check.
    ExtrOcamlBasic only: nat, positive, N stay Coq's own inductive types. *)
 From Coq Require Import ExtrOcamlBasic.
-From Memchr Require Import Params Base.Res Base.ListX Sub.IsEqual Sub.Pair Mem.Wrappers Mem.Iter Spec Sub.RabinKarp Sub.ShiftOr Sub.PackedPair Sub.TwoWay Sub.Searcher Sub.FindIter.
+From Memchr Require Import Params Base.Res Base.ListX Sub.IsEqual Sub.Pair Mem.Wrappers Mem.Iter Spec Sub.RabinKarp Sub.ShiftOr Sub.PackedPair Sub.TwoWay Sub.TwoWayCert Sub.Searcher Sub.FindIter.
 
 Extraction "extracted.ml"
   is_equal is_prefix is_suffix is_equal_raw
@@ -12,4 +12,5 @@ Extraction "extracted.ml"
   pw_new pw_min pw_find pw_find_prefilter pf_new pf_find_prefilter find_spec rfind_spec
   tw_new tw_new_rev tw_find tw_rfind prestate_new pre_update pre_is_effective
   finder_new rfinder_new finder_find rfinder_rfind memmem_find memmem_rfind
-  fiter_new fiter_run riter_new riter_run.
+  fiter_new fiter_run riter_new riter_run
+  tw_cert_fwd_of tw_cert_rev_of.
